@@ -230,6 +230,147 @@ func c14MgrChild(seed int64, n int) {
 	}
 }
 
+// ---------- manager cases for the correspondence (L2): Hist.mgr_check ----------
+func (e c14MgrEp) coq() string {
+	x := endpoint.Tars2endpoint(e.epf())
+	return fmt.Sprintf("(mk %s %s %s %s)", hx([]byte(e.Host)), hx([]byte(x.String())), coqZ(int64(e.Weight)), coqZ(int64(e.WType)))
+}
+
+func c14MgrWeightMode(a []c14MgrEp) bool {
+	for _, e := range a {
+		if e.WType != a[0].WType {
+			return false
+		}
+	}
+	return len(a) > 0 && a[0].WType == int32(endpoint.EStaticWeight)
+}
+
+func c14MgrGenCases(tier string, rng *rand.Rand) []c13Case {
+	n := 30
+	if tier == "thorough" {
+		n = 400
+	}
+	modes := []string{"static", "loop", "mixed"}
+	var cs []c13Case
+	for it := 0; it < n; it++ {
+		var universe []string
+		for i := 0; i < 2+rng.Intn(5); i++ {
+			universe = append(universe, fmt.Sprintf("10.7.%d.%d", it%200, i+1))
+		}
+		first, last := modes[(it/2)%3], modes[(it/6)%3] // every transition between weight modes
+		var hist [][]c14MgrEp
+		hist = append(hist, c14MgrAnswer(rng, universe, first))
+		for s := rng.Intn(3); s > 0; s-- {
+			switch rng.Intn(5) {
+			case 0:
+				hist = append(hist, nil)
+			case 1:
+				hist = append(hist, append([]c14MgrEp(nil), hist[len(hist)-1]...))
+			default:
+				hist = append(hist, c14MgrAnswer(rng, universe, modes[rng.Intn(3)]))
+			}
+		}
+		hist = append(hist, c14MgrAnswer(rng, universe, last))
+		if rng.Intn(6) == 0 {
+			hist = append(hist, nil) // a trailing empty answer keeps the previous one
+		}
+		final := hist[len(hist)-1]
+		if len(final) == 0 {
+			final = hist[len(hist)-2]
+		}
+		kind := []string{"mgr-conhash", "mgr-modhash"}[it%2]
+		w := c14MgrWeightMode(final)
+		var keys []uint32
+		if kind == "mgr-conhash" {
+			for _, e := range final {
+				keys = append(keys, c13PointsOf("conhash-ketama", w, c13Ep{Host: e.Host, Port: 10000, Weight: e.Weight, WType: e.WType})...)
+			}
+			sort.Slice(keys, func(a, b int) bool { return keys[a] < keys[b] })
+		}
+		codes := []uint32{0, 1, 0x7fffffff, 0x80000000, 0xffffffff}
+		for i := 0; i < len(keys); i += 1 + len(keys)/8 {
+			codes = append(codes, keys[i], keys[i]-1, keys[i]+1)
+		}
+		for i := 0; i < 12; i++ {
+			codes = append(codes, rng.Uint32())
+		}
+		cs = append(cs, c13Case{Kind: kind, Answers: hist, Ops: []c13Op{{Op: "select", Codes: codes}},
+			Class: fmt.Sprintf("%s/%s-to-%s/%d-answers", kind, first, last, len(hist))})
+	}
+	return cs
+}
+
+// runs in the child worker: the real manager over the answers, observations into the case
+func c14MgrRunCase(c *c13Case) (fs []Failure) {
+	m := c14MgrDrive(c.Answers)
+	c.Installed = m.ActiveEp()
+	ht := tars.ConsistentHash
+	if c.Kind == "mgr-modhash" {
+		ht = tars.ModHash
+	}
+	o := &c.Ops[0]
+	o.Obs = nil
+	for _, code := range o.Codes {
+		h := ""
+		if adp, _ := m.Select(true, ht, code); adp != nil {
+			h = adp.GetPoint().Host
+		}
+		o.Obs = append(o.Obs, h)
+	}
+	return nil
+}
+
+func c14MgrCoq(c *c13Case) string {
+	kind, sk := "ConHash", "conhash-ketama"
+	if c.Kind == "mgr-modhash" {
+		kind, sk = "ModHash", ""
+	}
+	var answers, table []string
+	seen := map[string]bool{}
+	for _, a := range c.Answers {
+		p := make([]string, len(a))
+		for i, e := range a {
+			p[i] = e.coq()
+			if sk == "" {
+				continue
+			}
+			for _, w := range []bool{false, true} { // the model decides the weight mode: give it the points of both
+				x := c13Ep{Host: e.Host, Port: 10000, Weight: e.Weight, WType: e.WType}
+				k := c13ChRounds(w, e.Weight)
+				key := fmt.Sprintf("%s|%d", e.Host, k)
+				if seen[key] {
+					continue
+				}
+				seen[key] = true
+				keys := c13PointsOf(sk, w, x)
+				ks := make([]string, len(keys))
+				for j, v := range keys {
+					ks[j] = fmt.Sprint(v)
+				}
+				table = append(table, fmt.Sprintf("(%s, %d%%nat, [%s])", hx([]byte(e.Host)), k, strings.Join(ks, "; ")))
+			}
+		}
+		answers = append(answers, "["+strings.Join(p, "; ")+"]")
+	}
+	inst := make([]string, len(c.Installed))
+	for i, h := range c.Installed {
+		inst[i] = hx([]byte(h))
+	}
+	o := c.Ops[0]
+	cs, os := make([]string, len(o.Codes)), make([]string, len(o.Obs))
+	for i := range o.Codes {
+		cs[i] = fmt.Sprint(o.Codes[i])
+	}
+	for i, h := range o.Obs {
+		if h == "" {
+			os[i] = "None"
+		} else {
+			os[i] = "Some " + hx([]byte(h))
+		}
+	}
+	return fmt.Sprintf("inr (%s, [%s], [%s], [%s], [%s], [%s])", kind, strings.Join(table, "; "), strings.Join(answers, ";\n   "), strings.Join(inst, "; "), strings.Join(cs, "; "), strings.Join(os, "; "))
+}
+
 // c14MgrHistories runs the scenario in a child process and judges the report
 func c14MgrHistories(tier string, rng *rand.Rand, res *Result) {
 	n := 120
